@@ -263,10 +263,22 @@ func (g *gen) multi(o multiOpts) *layout {
 	l.refTrack, l.refTimescale, l.noTrex = rt.id, rt.timescale, !rt.trex
 	l.els = append(l.els, &elem{kind: 'f', data: encodeBox(init.Ftyp), seg: -1, frag: -1},
 		&elem{kind: 'v', data: encodeBox(init.Moov), stts: true, traks: traks, seg: -1, frag: -1})
-	l.delim = []string{"styp", "styp", "none", "som"}[r.Intn(4)]
+	l.delim = []string{"styp", "styp", "none", "som", "sidx"}[r.Intn(5)]
 	nseg := 1 + r.Intn(4)
 	if l.delim == "none" {
 		nseg = 1
+	}
+	// one top-level sidx box (no styp) indexes the whole file. With virtual mdat boxes every segment gets one and
+	// stays below 2 GiB (31-bit referenced_size), and there are 3 to 7 of them: the segments start up to ~12 GiB
+	// behind the anchor point, the running sum of the referenced sizes crosses 2^32 (and 2^33) between two references.
+	var sidxEl *elem
+	if l.delim == "sidx" {
+		if o.big {
+			nseg = 3 + r.Intn(5)
+		}
+		sidxEl = &elem{kind: 'x', version: byte(r.Intn(2)), refs: make([]ref, nseg), seg: -1, frag: -1}
+		sidxEl.data = mkSidx(sidxEl, g.u())
+		l.els = append(l.els, sidxEl)
 	}
 	l.nsegInt = nseg
 	l.som = l.delim == "som"
@@ -334,7 +346,7 @@ func (g *gen) multi(o multiOpts) *layout {
 			}
 			g.seq++
 			hdr := 8
-			virtual := o.big && (f == nf-1) && r.Intn(2) == 0
+			virtual := o.big && (f == nf-1) && (r.Intn(2) == 0 || (sidxEl != nil && r.Intn(8) != 0))
 			largeHdr := !virtual && r.Intn(5) == 0 // a small mdat written with a 16-byte large-size header
 			if virtual || largeHdr {
 				hdr = 16
@@ -369,11 +381,28 @@ func (g *gen) multi(o multiOpts) *layout {
 			}
 			targets := []uint64{1<<31 - 1, 1 << 31, 1<<31 + 100, 1<<32 - 1, 1 << 32, 1<<32 + 216, 1<<33 + 5, 1 << 20, 1<<31 - 2}
 			target := targets[r.Intn(len(targets))]
+			if sidxEl != nil {
+				// indexable segments only; mostly ~1.5 GiB
+				target = uint64(r.Pick(3<<29, 3<<29, 3<<29+8, 1<<31-1, 1<<31-2, 1<<30, 1<<20))
+			}
 			lastMdat.vsize = target - rest
 			lastMdat.data = mkMdatVirtualHeader(lastMdat.vsize)
 		}
 	}
 	l.place()
+	if sidxEl != nil {
+		// the references from the positions: segment s spans from its first box to the first box of the next one
+		// (the end of the file for the last); first_offset 0: the media follows the sidx box directly
+		sizes, _ := l.truth()
+		for s := range sidxEl.refs {
+			if sizes[s] > 0x7fffffff {
+				panic("harness: sidx-delimited segment of 2 GiB or more")
+			}
+			sidxEl.refs[s] = ref{typ: 0, size: uint32(sizes[s]), dur: 100}
+		}
+		sidxEl.data = mkSidx(sidxEl, g.u())
+		l.place()
+	}
 	l.desc = fmt.Sprintf("multi delim=%s nseg=%d tracks=%d ref=%d big=%v bigdur=%v%s", l.delim, nseg, k, l.refTrack, o.big, o.bigDur, l.sizesNote())
 	return l
 }
